@@ -173,7 +173,13 @@ func (s *streamHTTP) readMsg(c Codec, b []byte) (int, []byte, error) {
 		b = append(b, s.rbuf...)
 		b, n, err := codec.ReadNext(b, s.r, s.opts.maxReceiveMessageSize)
 		if err == io.EOF {
-			s.rEOF, err = true, nil
+			s.rEOF = true
+			switch {
+			case n > 0:
+				err = nil // the last message arrived together with EOF
+			case len(b) > 0:
+				err = io.ErrUnexpectedEOF // the stream ends inside a message
+			}
 		}
 		s.rbuf = append(s.rbuf[:0], b[n:]...)
 		return count, b[:n], err
@@ -222,12 +228,15 @@ func (s *streamHTTP) decodeRequestArgs(args proto.Message) (int, error) {
 	var (
 		count int
 	)
+	isHTTPBody := cur.Descriptor().FullName() == "google.api.HttpBody"
 	count, b, err = s.readMsg(c, b)
-	if err != nil {
+	if err != nil && !(err == io.EOF && count == 0 && isHTTPBody) {
+		// An empty upload still delivers its (empty) first HttpBody message so
+		// that the content type and URL parameters reach the handler.
 		return count, err
 	}
 
-	if cur.Descriptor().FullName() == "google.api.HttpBody" {
+	if isHTTPBody {
 		fds := cur.Descriptor().Fields()
 		fdContentType := fds.ByName("content_type")
 		fdData := fds.ByName("data")
